@@ -541,9 +541,105 @@ PREFIX_HARNESSES = [
 ]
 
 
-# ---- index guards of the structural reader (E1, every int) ----------------------------------
+# ---- the structural reader's skip functions (used when the reader schema drops a field): same contract as the
+# ---- read functions - exact consumption on a whole value, an exception on every proper prefix ----------------
 
 RD = "fastavro._read_py"
+_NS = {"writer": {}, "reader": {}}
+
+
+def _skip(m, kind, stream, schema=None):
+    mod = m.mod(RD)
+    dec = m.mod(DEC).BinaryDecoder(stream)
+    return getattr(mod, "skip_" + kind)(dec, schema if schema is not None else kind, dict(_NS))
+
+
+def _skip_exact(m, kind, wmeth, v, schema=None):
+    out = m.out()
+    getattr(m.mod(ENC).BinaryEncoder(out), wmeth)(v)
+    w = out.getvalue()
+    rest = _rest(m)
+    stream = m.inp(w + rest)
+    _skip(m, kind, stream, schema)
+    _at_rest(m, f"skip.{kind}.consumed", stream, rest, _wlen(w))
+
+
+def h_skip_long(m):
+    _skip_exact(m, "long", "write_long", m.int("n", *I64))
+
+
+def h_skip_int(m):
+    _skip_exact(m, "int", "write_int", m.int("n", -(1 << 31), (1 << 31) - 1))
+
+
+def h_skip_fixedwidth(m):
+    _skip_exact(m, "boolean", "write_boolean", m.bool("d"))
+    _skip_exact(m, "double", "write_double", m.f64("x"))
+    x = m.f64("y")
+    m.assume(z3.Not(spec_f32_overflow(Z(x))))
+    _skip_exact(m, "float", "write_float", x)
+
+
+def h_skip_lenprefixed(m):
+    n = m.int("n", 0, (1 << 62), small=5)
+    _skip_exact(m, "bytes", "write_bytes", m.blob("P", n))
+    _skip_exact(m, "utf8", "write_utf8", m.ostr("S"))
+    k = m.int("k", 0, 1 << 40, small=5)
+    p = m.blob("Q", k)
+    rest = _rest(m)
+    stream = m.inp(p + rest)
+    _skip(m, "fixed", stream, {"type": "fixed", "name": "F", "size": k})
+    _at_rest(m, "skip.fixed.consumed", stream, rest, k)
+
+
+def h_skip_prefix_varint(m):
+    j = m.choice("j", 0, 9)
+    bs = [m.byte(f"b{i}") for i in range(j)]
+    for b in bs:
+        m.assume((Z(b) & 0x80) == bv(0x80))
+    for kind in ("long", "int"):
+        stream = m.inp(_mk_bytes(m, bs))
+        _must_raise(m, f"skip.prefix.{kind}", lambda: _skip(m, kind, stream), f"skip_{kind} on a truncated varint returned")
+
+
+def h_skip_prefix_fixedwidth(m):
+    for kind, width in (("boolean", 1), ("float", 4), ("double", 8)):
+        for j in range(width):
+            bs = [m.byte(f"{kind}{j}_{i}") for i in range(j)]
+            stream = m.inp(_mk_bytes(m, bs))
+            _must_raise(m, f"skip.prefix.{kind}", lambda: _skip(m, kind, stream), f"skip_{kind} on {j} bytes returned")
+
+
+def h_skip_prefix_payload(m):
+    """payload shorter than announced (the stream ends inside it) -> raises, for bytes, string and fixed"""
+    n = m.int("n", 1, 1 << 62, small=5)
+    c = m.int("c", 0, 1 << 62, small=4)
+    m.assume(Z(c) < Z(n))
+    out = m.out()
+    m.mod(ENC).BinaryEncoder(out).write_long(n)
+    short = m.blob("P", c)
+    for kind in ("bytes", "utf8"):
+        stream = m.inp(out.getvalue() + short)
+        _must_raise(m, f"skip.prefix.{kind}", lambda: _skip(m, kind, stream), f"skip_{kind} returned for a short payload")
+    stream = m.inp(short)
+    _must_raise(m, "skip.prefix.fixed", lambda: _skip(m, "fixed", stream, {"type": "fixed", "name": "F", "size": n}),
+                "skip_fixed returned for a short payload")
+
+
+SKIP_EXACT_HARNESSES = [
+    (h_skip_long, "dec", ["skip.long.consumed"]),
+    (h_skip_int, "dec", ["skip.int.consumed"]),
+    (h_skip_fixedwidth, "dec", ["skip.boolean.consumed", "skip.double.consumed", "skip.float.consumed"]),
+    (h_skip_lenprefixed, "dec", ["skip.bytes.consumed", "skip.utf8.consumed", "skip.fixed.consumed"]),
+]
+SKIP_PREFIX_HARNESSES = [
+    (h_skip_prefix_varint, "dec", ["skip.prefix.long", "skip.prefix.int"]),
+    (h_skip_prefix_fixedwidth, "dec", ["skip.prefix.boolean", "skip.prefix.float", "skip.prefix.double"]),
+    (h_skip_prefix_payload, "dec", ["skip.prefix.bytes", "skip.prefix.utf8", "skip.prefix.fixed"]),
+]
+
+
+# ---- index guards of the structural reader (E1, every int) ----------------------------------
 
 
 class _IdxDecoder:
@@ -584,10 +680,15 @@ def h_index_guards(m):
     enum = {"type": "enum", "name": "E", "symbols": ["A", "B", "C", "D"][:n]}
     ns = {"writer": {}, "reader": {}}
     inr = z3.And(Z(idx) >= 0, Z(idx) < n)
+    # the same reads under a reader schema (resolution path): a reader enum with a default symbol, a reader union
+    renum = dict(enum, symbols=enum["symbols"][:max(1, n - 1)], default=enum["symbols"][0])
+    runion = list(union) + ["double"]
     for name, fn in (("read_union", lambda d: mod.read_union(d, union, ns, None, {})),
                      ("skip_union", lambda d: mod.skip_union(d, union, ns)),
                      ("read_enum", lambda d: mod.read_enum(d, enum, ns, None, {})),
-                     ("skip_enum", lambda d: mod.skip_enum(d, enum, ns))):
+                     ("skip_enum", lambda d: mod.skip_enum(d, enum, ns)),
+                     ("read_enum_reader_default", lambda d: mod.read_enum(d, enum, ns, renum, {})),
+                     ("read_union_reader", lambda d: mod.read_union(d, union, ns, runion, {}))):
         d = _IdxDecoder(idx)
         try:
             r = fn(d)
@@ -603,7 +704,8 @@ def h_index_guards(m):
 
 
 GUARD_HARNESSES = [
-    (h_index_guards, "idx", [f"guard.{f}.{o}" for f in ("read_union", "skip_union", "read_enum", "skip_enum")
+    (h_index_guards, "idx", [f"guard.{f}.{o}" for f in ("read_union", "skip_union", "read_enum", "skip_enum",
+                                                         "read_enum_reader_default", "read_union_reader")
                              for o in ("raises_only_out_of_range", "accepts_only_in_range", "nothing_read_after_bad_index")]
      + ["guard.read_enum.symbol"]),
 ]
